@@ -12,8 +12,13 @@ CONSTANT Export
 VARIABLES fv, pc
 vars == <<fv, pc>>
 
-Cases == {[construct |-> c, context |-> cx] : c \in Constructs, cx \in Contexts}
-Build(c) == C05Case("PFX", c.construct, c.context)
+\* ... and every annotation on every field kind and cardinality it is accepted on (the singles of the
+\* build family), as the only annotated field of the RPC's message
+JsonSingles == {t \in C13Singles : t[1] \notin {"query", "path"}}
+NoSingle == <<"", "", "">>
+Cases == {[construct |-> c, context |-> cx, single |-> NoSingle] : c \in Constructs, cx \in Contexts}
+         \cup {[construct |-> "single", context |-> "top", single |-> t] : t \in JsonSingles}
+Build(c) == IF c.construct = "single" THEN C05Single("PFX", c.single) ELSE C05Case("PFX", c.construct, c.context)
 
 \* a symbolic populated value of message M (depth-limited): every field present
 SymLeaf(n) == LET j == [t |-> "str", v |-> "L:" \o n] IN
